@@ -23,6 +23,11 @@ static std::string tstr(const vartype_t &t) {
   return pout.str();
 }
 
+static std::string encName(int enc) {
+  std::string s = (enc & encodingType::u8) ? "u8" : (enc & encodingType::u) ? "u" : (enc & encodingType::U) ? "U" : (enc & encodingType::L) ? "L" : "";
+  if (enc & encodingType::R) s += "R";
+  return s;
+}
 static std::string dumpExpr(exprNode *e);
 static std::string dumpList(exprNodeVector &v) {
   std::string s = "[";
@@ -35,8 +40,17 @@ static std::string dumpExpr(exprNode *e) {
   const occa::udim_t t = e->type();
   if (t & exprNodeType::empty) return "[\"empty\"]";
   if (t & exprNodeType::primitive) return "[\"prim\"," + q(e->to<primitiveNode>().value.toString()) + "]";
-  if (t & exprNodeType::char_) return "[\"char\"," + q(e->to<charNode>().value) + "]";
-  if (t & exprNodeType::string) return "[\"str\"," + q(e->to<stringNode>().value) + "]";
+  // literals: value plus the encoding prefix and user-defined suffix of the token the node was made from
+  if (t & exprNodeType::char_) {
+    std::string pre, udf;
+    if (e->token && (e->token->type() & tokenType::char_)) { charToken &c = e->token->to<charToken>(); pre = encName(c.encoding); udf = c.udf; }
+    return "[\"char\"," + q(e->to<charNode>().value) + "," + q(pre) + "," + q(udf) + "]";
+  }
+  if (t & exprNodeType::string) {
+    std::string pre, udf;
+    if (e->token && (e->token->type() & tokenType::string)) { stringToken &c = e->token->to<stringToken>(); pre = encName(c.encoding); udf = c.udf; }
+    return "[\"str\"," + q(e->to<stringNode>().value) + "," + q(pre) + "," + q(udf) + "]";
+  }
   if (t & exprNodeType::identifier) return "[\"id\"," + q(e->to<identifierNode>().value) + "]";
   if (t & exprNodeType::variable) return "[\"id\"," + q(e->to<variableNode>().value.name()) + "]";
   if (t & exprNodeType::function) return "[\"id\"," + q(e->to<functionNode>().value.name()) + "]";
